@@ -1039,6 +1039,9 @@ func runEpisode(prog *progSpec) (res epResult) {
 	gated := prog.Sched.Kind != "free" && prog.Sched.Kind != "race"
 	g := newGate(gated)
 	g.coarse = prog.Sched.Coarse
+	if onDemand[prog.Sched.Label] {
+		g.demand = prog.Sched.Label
+	}
 	g.sink = liveSink
 	if prog.Sched.Kind == "race" {
 		// race-detector runs: no logging at all, the harness must not add any synchronisation of its own
